@@ -255,6 +255,9 @@ type unitResult struct {
 type runOpts struct {
 	storedInv map[int][]string // sweep: invariants inferred on the unchanged tree
 	only      map[string]bool  // if non-nil: solve only these obligation names (others are left unattempted)
+	skip      map[string]bool  // obligation names not to attempt (recorded as not claimed in the baseline)
+	solvers   []string         // first-pass solvers (nil = all)
+	safety    bool             // keep only the safety-class obligations of the unit (C07 view of a unit that belongs to another property)
 }
 
 func (g *Global) runUnit(u *Unit, timeout int, workers chan struct{}) *unitResult {
@@ -304,13 +307,23 @@ func (g *Global) runUnitOpts(u *Unit, timeout int, workers chan struct{}, ro run
 	}()
 	res.VC = vc
 	vc.obls = append(vc.obls, g.footprintObligations(vc, u, fn)...)
+	if ro.safety {
+		var keep []*Obligation
+		for _, o := range vc.obls {
+			switch o.Class {
+			case "index", "slice", "nil", "nil-map", "assert-type", "div", "neg-make", "panic-call", "arith", "cover":
+				keep = append(keep, o)
+			}
+		}
+		vc.obls = keep
+	}
 	res.Obls = vc.obls
 	var wg sync.WaitGroup
 	for _, o := range vc.obls {
 		if o.Static {
 			continue
 		}
-		if ro.only != nil && !ro.only[o.Name] {
+		if (ro.only != nil && !ro.only[o.Name]) || (ro.skip != nil && ro.skip[o.Name] && !o.Cover) {
 			o.Status = "unattempted"
 			continue
 		}
@@ -323,7 +336,7 @@ func (g *Global) runUnitOpts(u *Unit, timeout int, workers chan struct{}, ro run
 			if o.Cover && tmo > 3 {
 				tmo = 3
 			}
-			o.Result = solve(o.script(), tmo, nil)
+			o.Result = solve(o.script(), tmo, ro.solvers)
 			switch {
 			case o.Cover:
 				switch o.Result.Status {
@@ -638,6 +651,22 @@ func cmdCheck(args []string) int {
 		}
 		claimedByFn[oblFn(n)]++
 	}
+	quickSkip := map[string]bool{}
+	{
+		var kfs0 []knownFinding
+		readJSON(filepath.Join(verifDir, "known_findings.json"), &kfs0)
+		isKnown := map[string]bool{}
+		for _, k := range kfs0 {
+			if k.Property == *prop && k.Status == "known" {
+				isKnown[k.Obligation] = true
+			}
+		}
+		for _, n := range bl.Unproved {
+			if !isKnown[n] {
+				quickSkip[n] = true
+			}
+		}
+	}
 	workers := make(chan struct{}, 10)
 	results := make([]*unitResult, len(units))
 	var wg sync.WaitGroup
@@ -669,6 +698,19 @@ func cmdCheck(args []string) int {
 						ro.only = sweepClaim
 					}
 				}
+			}
+			if !u.Opts["sweep"] && *tier == "quick" && !*updateBaseline {
+				// quick tier: obligations the committed baseline lists as not claimed are not attempted (they mostly
+				// burn the whole time limit); known findings are attempted so that they are reported
+				ro.skip = quickSkip
+			}
+			if *prop == "C07" && !u.Opts["sweep"] && len(u.Props) > 0 && u.Props[0] != "C07" {
+				// the unit's functional obligations are checked under its own property; C07 is about its panics
+				ro.safety = true
+			}
+			if *tier == "quick" && !*updateBaseline {
+				// first pass with the two fast back ends; whatever they leave undecided gets all three in the retry pass
+				ro.solvers = []string{"cvc5", "z3-new"}
 			}
 			results[i] = g.runUnitOpts(u, tmo, workers, ro)
 		}(i, u)
@@ -729,14 +771,34 @@ func cmdCheck(args []string) int {
 	// second chance for obligations the solvers gave up on (not refuted): run them again, one at a time, with a
 	// longer time limit, so that machine load cannot turn a slow proof into an alarm
 	if !*updateBaseline {
+		var again []*Obligation
 		for _, r := range results {
 			for _, o := range r.Obls {
 				if o.Cover || o.Status != "undecided" || unprovedOKPre(bl, o.Name) {
 					continue
 				}
+				if _, isKnown := known[o.Name]; isKnown {
+					continue
+				}
 				if r.Unit.Opts["sweep"] && !sweepClaim[o.Name] {
 					continue
 				}
+				again = append(again, o)
+			}
+		}
+		// many undecided claimed obligations at once mean a real change, not load: retry a bounded number of them
+		sort.Slice(again, func(i, j int) bool { return again[i].Name < again[j].Name })
+		if len(again) > 16 {
+			again = again[:16]
+		}
+		var rwg sync.WaitGroup
+		rsem := make(chan struct{}, 4)
+		for _, o := range again {
+			rwg.Add(1)
+			go func(o *Obligation) {
+				defer rwg.Done()
+				rsem <- struct{}{}
+				defer func() { <-rsem }()
 				res := solve(o.script(), timeout*4, nil)
 				if res.Status == "unsat" {
 					o.Result = res
@@ -745,8 +807,9 @@ func cmdCheck(args []string) int {
 					o.Result = res
 					o.Status = "failed"
 				}
-			}
+			}(o)
 		}
+		rwg.Wait()
 	}
 	total, discharged, covers := 0, 0, 0
 	var violations []string
